@@ -120,6 +120,7 @@ type kb struct {
 	iStr     int // bytes per work-item in IN
 	iShift   int
 	rev      bool     // compute the reversed-region address (xkernel chains)
+	inPrev   bool     // IN is the OUT buffer of the previous kernel (device-written)
 	declVGPR int      // VGPRs per work-item the code object declares (>= nVGPR)
 	oBody    int      // end of the body area of an OUT region (= oStr - llDump)
 	lean     bool     // no temporaries: prologue, long-lived values, body, dump
